@@ -150,14 +150,27 @@ fn waitlist_model(cfg: Value) -> impl Fn() + Sync + Send + Clone + 'static {
         let wl: Arc<WaitList<u64>> = Arc::new(WaitList::new());
         let m = Arc::new(loom::sync::Mutex::new(Vec::<(u64, usize)>::new()));
         let mut hs = vec![];
+        // threads listed under "early" leave as soon as they are linked, head or not (what a
+        // follower of the coalescing queue does once it has its output)
+        let early: Vec<usize> = cfg["early"].as_array().map(|a| a.iter().map(|x| x.as_u64().unwrap() as usize).collect()).unwrap_or_default();
+        let n_early = early.len();
         for t in 0..threads {
             let wl = Arc::clone(&wl);
             let m = Arc::clone(&m);
+            let leaves_early = early.contains(&t);
             hs.push(loom::thread::spawn(move || {
                 record(t + 1, "link call");
                 let mut wg = wl.link(t as u64);
                 let idx = wg.index();
                 record(t + 1, format!("link -> index {idx}"));
+                if leaves_early {
+                    let g = m.lock().unwrap();
+                    drop(wg);
+                    wl.notify_head();
+                    drop(g);
+                    record(t + 1, "left early");
+                    return;
+                }
                 let mut g = m.lock().unwrap();
                 while !wg.is_head() {
                     g = wg.naked_wait(g);
@@ -178,7 +191,7 @@ fn waitlist_model(cfg: Value) -> impl Fn() + Sync + Send + Clone + 'static {
             h.join().unwrap();
         }
         let order = m.lock().unwrap().clone();
-        if order.len() != threads {
+        if order.len() != threads - n_early {
             finding("waitlist-lost-waiter", format!("{order:?}"));
         }
         if order.windows(2).any(|w| w[0].0 >= w[1].0) {
@@ -324,6 +337,14 @@ fn configs(thorough: bool) -> Vec<Value> {
         v.push(json!({
             "harness": "waitlist", "name": format!("waitlist-t{threads}-s{slots}"),
             "threads": threads, "slots": slots, "limits": lim(),
+        }));
+    }
+    // more waiters than slots by two, and a waiter that leaves before it is head: the head's
+    // unlink then frees several slots at once and every blocked linker must still get in
+    for (threads, slots, early) in [(4usize, 2usize, json!([1])), (4, 2, json!([1, 2])), (3, 1, json!([1])), (4, 1, json!([2]))] {
+        v.push(json!({
+            "harness": "waitlist", "name": format!("waitlist-t{threads}-s{slots}-early{}", early.to_string().replace(['[', ']', ','], "")),
+            "threads": threads, "slots": slots, "early": early, "limits": lim(),
         }));
     }
     let progs = [
